@@ -328,7 +328,14 @@ pub fn case_compile(ctx: &mut Ctx, case: &Value) {
                 );
             }
             if resp != format!("err game {}", k) {
-                ctx.fail_corr(case, format!("library Err({}), model answered {:?}", k, resp));
+                // a tree that violates several rules may be reported under any of them: which one
+                // the traversal meets first is not part of the contract.  The model must reject
+                // too, and both named rules must be violated (checked against the declarative
+                // contract above for the library, here for the model).
+                match resp.strip_prefix("err game ") {
+                    Some(m) if viol.contains(m) && viol.contains(k.as_str()) => ctx.stat("rejected_under_another_violated_rule"),
+                    _ => ctx.fail_corr(case, format!("library Err({}), model answered {:?}", k, resp)),
+                }
             }
         }
     }
